@@ -97,6 +97,11 @@ pub fn handle_step(rng: &mut Rng, sess: &Session, slot: usize, cfg: &HCfg) -> St
         Step::HWrite { slot, len: n }
     } else if w < 54 {
         let n = pick_n(rng).min(cfg.max_len.saturating_sub(pos) as usize);
+        if rng.chance(1, 10) {
+            // zeros over whatever is there, long enough to cover whole aligned sectors
+            let z = (*rng.pick(&[600usize, 1100, 2048, 4096, 9000, 12288])).min(cfg.max_len.saturating_sub(pos) as usize);
+            return Step::HWriteTag { slot, len: z, tag: engine::ZERO_TAG };
+        }
         Step::HWriteAll { slot, len: n }
     } else if w < 78 {
         let from = match rng.below(if cfg.extreme_seeks { 20 } else { 11 }) {
@@ -570,6 +575,16 @@ fn c07_checkpoint(sess: &mut Session, rep: &mut Report, done: &mut Vec<Step>) ->
 
 fn c07_case(ctx: &Ctx, rep: &mut Report, rng: &mut Rng, version: Version, bufsize: Option<usize>, done: &mut Vec<Step>) -> Result<(), Fail> {
     let mut sess = Session::create(version, bufsize).map_err(|e| ("create | ok | err".to_string(), format!("{e}")))?;
+    // "every entry's metadata is left as the model predicts" includes the root's: give it
+    // a CLSID and state bits that an operation through a handle could lose
+    if rng.chance(2, 3) {
+        let mut c = [0u8; 16];
+        for b in c.iter_mut() {
+            *b = rng.next_u32() as u8 | 1;
+        }
+        run_step(&mut sess, Step::Api(Op::SetClsid("/".into(), c)), done, rep)?;
+        run_step(&mut sess, Step::Api(Op::SetState("/".into(), rng.next_u32() | 1)), done, rep)?;
+    }
     // sibling sets built middle-first so that interior nodes have two children
     let pool: Vec<&str> = vec!["h", "d", "l", "b", "f", "j", "n", "a", "c", "e", "g", "i", "k", "m", "o", "D", "bb", "hh", "\u{e9}", "zz"];
     let storages = ["/", "/st", "/st/in"];
